@@ -26,6 +26,8 @@ def check(ctx):
         ctx.guard(_eo, ctx, out["eo"])
     from .c04 import r048_wiring
     ctx.guard(r048_wiring, ctx, "R05.6")
+    from .c04 import r049_no_inplace
+    ctx.guard(r049_no_inplace, ctx, "R05.7")
     ctx.guard(_shared_c05, ctx)
 
 def r051(ctx):
@@ -154,6 +156,6 @@ def _shared_c05(ctx):
     from .c12 import label_sinks
     from .c19 import lifecycle_of
     ctx.rule("R05.5", "fit does not depend on state left by an earlier fit and prediction writes no state (shared with C19 R19.3 / R19.4)")
-    lifecycle_of(ctx, [TO], {"R19.3": "R05.5", "R19.4": "R05.5"})
+    lifecycle_of(ctx, [TO], {"R19.3": "R05.5", "R19.4": "R05.5", "R19.6": "R05.5"})
     ctx.rule("R05.4", "no caller-labelled pandas value reaches a label-aligning operation on the paths of this property (shared with C12 R12.1)")
     label_sinks(ctx, "R05.4", [(TO + ".fit", TO)])
